@@ -373,12 +373,23 @@ MUTANTS = ['globalmode', 'globalacc', 'publishearly', 'nostarkey', 'noreset']
 def main(tier, seed):
     c06._assert_pristine()
     check = vlib.Check(PROP, tier, seed)
+    try:
+        return _main(check, tier, seed)
+    except vlib.MachineryError as e:
+        if not check.violations:
+            raise
+        # a machinery problem after violations were found must not mask them
+        print('MACHINERY-PROBLEM after violations were found: %s' % str(e)[:300])
+        return check.finish(rule='incomplete run: machinery problem after violations were found', exhaustive=False)
+
+
+def _main(check, tier, seed):
     base = dict(MaxCalls=1, ToggleAnytime='FALSE', RegisterAnytime='FALSE', RecHist='FALSE', Mutant='""')
     # 1. model checking at the finest grain (cache steps separate)
     fine = {'quick': [dict(NProcs=2, PoolSize=9, PoolFrom=1, MaxCache=1, MaxToggles=1, MaxRegs=0, Gates='{"yield","p","t"}'),
-                      dict(NProcs=2, PoolSize=6, PoolFrom=13, MaxCache=1, MaxToggles=0, MaxRegs=0, Gates='{"yield","p","t"}')],
+                      dict(NProcs=2, PoolSize=11, PoolFrom=13, MaxCache=1, MaxToggles=0, MaxRegs=0, Gates='{"yield","p","t"}')],
             'thorough': [dict(NProcs=2, PoolSize=12, PoolFrom=1, MaxCache=1, MaxToggles=1, MaxRegs=0, Gates='{"yield","p","t"}'),
-                         dict(NProcs=2, PoolSize=15, PoolFrom=4, MaxCache=1, MaxToggles=0, MaxRegs=1, Gates='{"yield","p","t"}'),
+                         dict(NProcs=2, PoolSize=20, PoolFrom=4, MaxCache=1, MaxToggles=0, MaxRegs=1, Gates='{"yield","p","t"}'),
                          dict(NProcs=3, PoolSize=3, PoolFrom=3, MaxCache=0, MaxToggles=0, MaxRegs=0, Gates='{"yield","p","t"}'),
                          dict(NProcs=2, PoolSize=2, PoolFrom=10, MaxCache=0, MaxToggles=1, MaxRegs=0, Gates='{"yield","p","t"}')]}[tier]
     # (a separate interpreter, so that this one stays single-threaded for the forks below)
@@ -396,10 +407,14 @@ def main(tier, seed):
         pool = replay_config(check, 'yield-2', dict(NProcs=2, PoolSize=9, PoolFrom=1, MaxCache=1, MaxToggles=0, MaxRegs=0, Gates='{"yield"}'))
         pool = pool + replay_config(check, 'yield-2-args-glommer', dict(NProcs=2, PoolSize=6, PoolFrom=13, MaxCache=1, MaxToggles=0,
                                                                         MaxRegs=0, Gates='{"yield"}'))
+        pool = pool + replay_config(check, 'yield-2-shared-objects', dict(NProcs=2, PoolSize=5, PoolFrom=19, MaxCache=1, MaxToggles=0,
+                                                                          MaxRegs=0, Gates='{"yield"}'))
     else:
         pool = replay_config(check, 'yield-2', dict(NProcs=2, PoolSize=9, PoolFrom=1, MaxCache=1, MaxToggles=1, MaxRegs=0, Gates='{"yield"}'))
         pool = pool + replay_config(check, 'yield-2-args-glommer', dict(NProcs=2, PoolSize=6, PoolFrom=13, MaxCache=1, MaxToggles=0,
                                                                         MaxRegs=1, Gates='{"yield"}'))
+        pool = pool + replay_config(check, 'yield-2-shared-objects', dict(NProcs=2, PoolSize=5, PoolFrom=19, MaxCache=1, MaxToggles=1,
+                                                                          MaxRegs=0, Gates='{"yield"}'))
         replay_config(check, 'yield-2-registry', dict(NProcs=2, PoolSize=2, PoolFrom=4, MaxCache=1, MaxToggles=0, MaxRegs=1, Gates='{"yield"}'))
         replay_config(check, 'yield-3', dict(NProcs=3, PoolSize=4, PoolFrom=3, MaxCache=1, MaxToggles=0, MaxRegs=0, Gates='{"yield"}'))
     replay_config(check, 'pathcache-steps', dict(NProcs=2, PoolSize=2, PoolFrom=10, MaxCache=0, MaxToggles=1, MaxRegs=0,
